@@ -114,7 +114,9 @@ func Harness_C19_C17_route() {
 	if zz.NondetBool("ownerIsOther") {
 		v.sh.owner = verifOther
 	}
-	v.cw.Start(1000)
+	// the collector's worker is deliberately not started: the span must still be in the queue the
+	// router put it in when the harness looks (natively a running worker takes it at once)
+	v.cw.SetNow(1000)
 	hasTrace := zz.NondetBool("hasTraceID")
 	isProbe := zz.NondetBool("isProbe")
 	fields := map[string]any{"f": int64(7)}
